@@ -118,8 +118,10 @@ theorem C01_neg_timedelta_text : tdStr (-1000000) = "-1 day, 23:59:59".toList :=
 
 /-- **C01 (structure).** Below any travelling config `cfg` (the recursive Meta of the main class, or none), for every type
 of the fragment int / float / str / bool / Decimal / Path / UUID / date / time / datetime / non-negative timedelta
-(canonical tokens, under the named `StdLaws`) / Enum (members with pairwise different values) / Optional[·] / list[·] /
-deque[·] / tuple[·, ...] / fixed tuples / dict[str, ·] / dataclass — with or without a Meta of its own — whose effective
+(canonical tokens, under the named `StdLaws`) / Enum (members with pairwise different values) / Literal[...] (the value is
+the first member equal to it) / Optional[·] / list[·] / deque[·] / set[·] / frozenset[·] (hashable, pairwise different
+elements, in the iteration order of the instance) / tuple[·, ...] / fixed tuples / NamedTuple classes / dict[str, ·] /
+defaultdict[str, ·] / OrderedDict[str, ·] / dataclass — with or without a Meta of its own — whose effective
 Meta (`effMeta ci.cmeta cfg`: any key transforms, `recursive` …) has no skip rule / tag / TIMESTAMP mode, without
 catch-all or init=False fields, and whose dump keys (first alias when `all=True`, else the effective dump transform of the
 name) lead the loader back to their fields (`RT.PlainCls cfg`, a decidable condition on the class), nested to any depth,
@@ -156,5 +158,29 @@ theorem C01_roundtrip_example (std : Std) :
     intro x hx
     simp only [List.mem_cons, List.not_mem_nil, or_false] at hx
     rcases hx with rfl | rfl <;> exact RT.Conf.str _
+
+/-- the container kinds added to the fragment are inhabited: a `set[int]`, a `Literal['a', 1]`, a NamedTuple
+`P(x: int, y: Optional[str] = None)` and an `OrderedDict[str, bool]` value conform. -/
+theorem C01_roundtrip_example_containers (std : Std) :
+    RT.Conf std none (.seq .set .int) (.seq .set [.int 1, .int 2]) ∧
+    RT.Conf std none (.literal [.str "a".toList, .int 1]) (Lit.toPy (.int 1)) ∧
+    RT.Conf std none (.ntuple "P".toList [("x".toList, .int, none), ("y".toList, .optional .str, some (.lit .none))])
+      (.ntuple "P".toList ["x".toList, "y".toList] [.int 1, .none]) ∧
+    RT.Conf std none (.map .ordereddict .str .bool) (.map .ordereddict [(.str "k".toList, .bool true)]) := by
+  refine ⟨RT.Conf.set _ _ (by rfl) (by rfl) ?_, RT.Conf.literal _ (.int 1) (by rfl), ?_, ?_⟩
+  · intro x hx
+    simp only [List.mem_cons, List.not_mem_nil, or_false] at hx
+    rcases hx with rfl | rfl <;> exact RT.Conf.int _
+  · refine RT.Conf.ntuple "P".toList [("x".toList, .int, none), ("y".toList, .optional .str, some (.lit .none))] [.int 1, .none] rfl ?_
+    intro p hp
+    simp only [List.map_cons, List.map_nil, List.zip_cons_cons, List.zip_nil_right, List.mem_cons, List.not_mem_nil, or_false] at hp
+    rcases hp with rfl | rfl
+    · exact RT.Conf.int 1
+    · exact RT.Conf.optNone _
+  · refine RT.Conf.ordereddict .bool [("k".toList, .bool true)] (by decide) ?_
+    intro p hp
+    simp only [List.mem_cons, List.not_mem_nil, or_false] at hp
+    subst hp
+    exact RT.Conf.bool true
 
 end DW.Props.C01
